@@ -3,7 +3,7 @@ CONSTANTS
   Peers <- MCPeers
   Durs <- MCDurs
   Steps <- MCSteps
-  MaxNow = 4
+  MaxNow = 3
 VIEW EdgeView
 INVARIANT EmitAll
 CHECK_DEADLOCK FALSE
